@@ -59,9 +59,9 @@ T("C20", f"{GEN}: every variable list x dictionary x default x dtype; every cont
 T("C14", f"{GEN}: every 1..2(3)-rule configurator x every priority dictionary x ALL feasible 0/1 points; objective vs lexicographic key (all pairs by one sort)",
   "For every configurator and dictionary inside the bound the captured objective is checked against the lexicographic key on every pair of feasible points.",
   "trusted: lex_key() in c14.py, brute-force feasible set; -2 tags read from the objects and cross-checked with the rule definitions", "4/C14")
-T("C15", f"{GEN}: every model/configurator x objective alphabet x solver answers (exact, tagged, None, raises) x flags; alignment by id, optimality",
+T("C15", f"{GEN}: every model/configurator x objective alphabet x solver answers (exact, tagged, None, raises) x flags (include_virtual_variables, try_reduce_before, only_leafs); alignment by id, optimality",
   "Every combination inside the bound is executed with capture solvers; what the callable receives and what is reported back are compared column by column.",
-  "trusted: brute-force exact solver in mc/cfgspace.py", "4/C15")
+  "trusted: brute-force exact solver in mc/cfgspace.py; open finding D12 (reduced polyhedron of the compiled dependency, try_reduce_before=True with negative lower bounds) is matched by a defect model (see known_findings.json)", "4/C15")
 T("C16", f"{GEN}: JSON round-trip edge (twice) from every raw / connective / configurator state; truth tables, ids, defaults, polyhedron modulo generated names",
   "Every state inside the bound is serialised, passed through json.dumps/loads, reloaded and compared with the reference truth of the original on all assignments.",
   "trusted: mc/ref.py; canonical renaming of generated ids in c16.py", "4/C16")
